@@ -208,6 +208,24 @@ struct Case
             n = sizeof buf - 1;
         if (desc.size() < 16384)
             desc.append(buf, (size_t)n);
+        mirror();
+    }
+    // replay/shrink runs mirror the description into shared memory so that it survives a
+    // watchdog kill (a hang has no other way of saying what the case was)
+    static char *&shm()
+    {
+        static char *p = nullptr;
+        return p;
+    }
+    static constexpr size_t kShmCap = 16384;
+    void mirror()
+    {
+        char *p = shm();
+        if (!p)
+            return;
+        size_t n = desc.size() < kShmCap - 1 ? desc.size() : kShmCap - 1;
+        memcpy(p, desc.data(), n);
+        p[n] = 0;
     }
     void label(const char *l)
     {
